@@ -185,11 +185,17 @@ op('apply_static_mods', _g_static,
 
 
 def _g_var(S, W):
-    return ok({'sequence': H(W, S, 'shortann') if S.coin(0.6) and W['kinds'].get('shortann') else SEQ(W, S),
-               'internal_mods': H(W, S, 'vmods'), 'max_mods': V(S.pick([0, 0, 1, 1, 2])),
+    seq = H(W, S, 'shortann') if S.coin(0.6) and W['kinds'].get('shortann') else SEQ(W, S)
+    if seq is None:
+        return None
+    # in append/overwrite mode re-modifying a modified residue is not counted against max_mods, so the number of
+    # forms is exponential in the number of matching sites: keep those modes to short peptides
+    small = seqlen(W, seq) <= 6
+    return ok({'sequence': seq,
+               'internal_mods': H(W, S, 'vmods'), 'max_mods': V(S.pick([0, 0, 1, 1, 2]) if small else S.pick([0, 1])),
                'nterm_mods': H(W, S, 'tmods') if S.coin(0.4) else V(None),
                'cterm_mods': H(W, S, 'tmods') if S.coin(0.3) else V(None),
-               'mode': V(S.pick(MODES)), 'return_type': V(S.pick(['str', 'annotation']))})
+               'mode': V(S.pick(MODES) if small else 'skip'), 'return_type': V(S.pick(['str', 'annotation']))})
 
 
 op('apply_variable_mods', _g_var,
